@@ -94,6 +94,23 @@ CONTEXTS = {
     'after_int': ('<dtml-var n7>L[@]R&dtml-q;', '7L[', ']R&quot;'),
     'before_tainted': ('L[@]R<dtml-var tn>&dtml-q;', 'L[', ']Rt&lt;n&gt;&quot;'),
 }
+# block bodies other than if/in: every place a block tag renders a section (the section inherits the
+# template's encoding); 'nope' is undefined, so the try body fails and the handler is rendered
+CONTEXTS.update({
+    'except':  ('<dtml-try><dtml-var nope><dtml-except>L[@]R</dtml-try>', 'L[', ']R'),
+    'except_named': ('<dtml-try>a<dtml-var nope>b<dtml-except KeyError NameError>L[@]R<dtml-except>other</dtml-try>', 'L[', ']R'),
+    'try_else': ('<dtml-try>t<dtml-except>e<dtml-else>L[@]R</dtml-try>', 'tL[', ']R'),
+    'try_body': ('<dtml-try>L[@]R<dtml-except>e</dtml-try>', 'L[', ']R'),
+    'finally': ('<dtml-try>t<dtml-finally>L[@]R</dtml-try>', 'tL[', ']R'),
+    'with':    ('<dtml-with wm mapping>L[@]R</dtml-with>', 'L[', ']R'),
+    'let':     ('<dtml-let z=y>L[@]R</dtml-let>', 'L[', ']R'),
+    'unless':  ('<dtml-unless nope>L[@]R</dtml-unless>', 'L[', ']R'),
+    'else':    ('<dtml-if nope>n<dtml-else>L[@]R</dtml-if>', 'L[', ']R'),
+    'in_else': ('<dtml-in none>n<dtml-else>L[@]R</dtml-in>', 'L[', ']R'),
+    'in_in':   ('<dtml-in one><dtml-if y><dtml-in one>L[@]R</dtml-in></dtml-if></dtml-in>', 'L[', ']R'),
+})
+BLOCK_CTX = ('except', 'except_named', 'try_else', 'try_body', 'finally', 'with', 'let', 'unless', 'else',
+             'in_else', 'in_in')
 NEIGHBOUR_CTX = ('after_tainted', 'after_tainted_entity', 'after_int', 'before_tainted')
 
 MECH_QUOTE = 'fastpath-skips-single-quote'
@@ -301,18 +318,18 @@ def check_value(ctx, env, recipe, tenc, forms, contexts, plain=()):
     env.add('value kinds', vkind)
     if recipe['t'] == 'bytes':
         env.add('bytes encodings (value/template)', '%s/%s' % (recipe['enc'], tenc or 'default'))
-    kw = {'x': value, 'y': 1, 'one': [0], 'tn': TaintedString('t<n>'), 'n7': 7, 'q': '"'}
+    kw = {'x': value, 'y': 1, 'one': [0], 'tn': TaintedString('t<n>'), 'n7': 7, 'q': '"', 'wm': {'w': 1}, 'none': []}
     calls = env.calls
     per_render = env.per_render
     vk0 = vkind.split(':')[0]
     results = []
     problems = 0
     todo = [(f, c, False) for f in forms for c in contexts
-            if not (c in ('if', 'in') and (FORMS[f][0] != 'html' or f not in NESTED_FORMS))
+            if not (c in ('if', 'in') + BLOCK_CTX and (FORMS[f][0] != 'html' or f not in NESTED_FORMS))
             and not (c in NEIGHBOUR_CTX and FORMS[f][0] != 'html')]
     if recipe['t'] == 'str':
         todo += [(f, c, True) for f in plain for c in contexts
-                 if not (c in ('if', 'in') + NEIGHBOUR_CTX and PLAIN[f][0] != 'html')]
+                 if not (c in ('if', 'in') + NEIGHBOUR_CTX + BLOCK_CTX and PLAIN[f][0] != 'html')]
     for form, context, is_plain in todo:
         if not is_plain and not applicable(form, text, value):
             env.add(None, 'skipped: spacify on a value containing "_"')
@@ -473,7 +490,9 @@ def codepoint_case(ctx, env, cp, full_bytes):
 
 def string_case(ctx, env, rng, cps):
     allforms = CORE + EXTENDED
-    ctxs = ('bare', 'wrapped', 'if', 'in') + NEIGHBOUR_CTX
+    k = rng.randrange(len(BLOCK_CTX))
+    ctxs = ('bare', 'wrapped', 'if', 'in') + NEIGHBOUR_CTX + (BLOCK_CTX[k], BLOCK_CTX[(k + 4) % len(BLOCK_CTX)],
+                                                              BLOCK_CTX[(k + 7) % len(BLOCK_CTX)])
     probs = check_value(ctx, env, {'t': 'str', 'cps': cps}, rng.choice([None, None, 'latin-1', 'utf-8']),
                         allforms, ctxs, plain=tuple(PLAIN))
     encs = ['utf-8', 'latin-1']
